@@ -60,6 +60,22 @@ pub fn summary(resp: &Value) -> Value {
     json!([cls, cost, d, t, eh])
 }
 
+/// equality of JSON values up to the last bits of non-integral numbers (serde_json's default number parser is not the
+/// exact inverse of its printer)
+pub fn same_json(a: &Value, b: &Value) -> bool {
+    match (a, b) {
+        (Value::Number(x), Value::Number(y)) => {
+            x == y || match (x.as_f64(), y.as_f64()) {
+                (Some(p), Some(q)) => (p - q).abs() <= 1e-13 * p.abs().max(q.abs()),
+                _ => false,
+            }
+        }
+        (Value::Array(x), Value::Array(y)) => x.len() == y.len() && x.iter().zip(y.iter()).all(|(p, q)| same_json(p, q)),
+        (Value::Object(x), Value::Object(y)) => x.len() == y.len() && x.iter().all(|(k, p)| y.get(k).map(|q| same_json(p, q)).unwrap_or(false)),
+        _ => a == b,
+    }
+}
+
 /// which expansion of its query a request is: position of its destination in the query's grid list
 fn ordinal(query: &Value, request: &Value) -> usize {
     match query["grid_search"]["destination_vertex"].as_array() {
@@ -96,6 +112,7 @@ fn gen_batch(r: &mut StdRng, n: usize) -> Value {
     let par = r.gen_range(1..=8);
     let nq = if r.gen_bool(0.3) { par * r.gen_range(1..=3) + r.gen_range(0..=1) } else { r.gen_range(1..=n.max(2)) };
     let mut queries = vec![];
+    let energy = r.gen_bool(0.3);
     for qid in 1..=nq {
         let o = r.gen_range(0..nv);
         let d = r.gen_range(0..nv);
@@ -118,6 +135,9 @@ fn gen_batch(r: &mut StdRng, n: usize) -> Value {
         if r.gen_bool(0.4) {
             q["query_weight_estimate"] = json!(r.gen_range(1..=9));
         }
+        if energy {
+            q["model_name"] = json!("camry");
+        }
         queries.push(q);
     }
     let sink = ["none", "json", "json", "csv"][r.gen_range(0..4)];
@@ -125,7 +145,7 @@ fn gen_batch(r: &mut StdRng, n: usize) -> Value {
     net["check"] = json!("batch");
     json!({"net": net, "par": par, "run_par": if r.gen_bool(0.3) { json!(r.gen_range(1..=8)) } else { Value::Null },
            "keep": r.gen_bool(0.6), "sink": sink, "sorted": r.gen_bool(0.5),
-           "flush": flush, "queries": queries, "reps": 2})
+           "flush": flush, "queries": queries, "reps": 2, "energy": energy})
 }
 
 fn read_lines(path: &std::path::Path) -> Vec<String> {
@@ -150,12 +170,17 @@ fn run_app_scenario(out: &mut Out, scn: &Value, tag: usize) {
             CSV_TOML.replace("$SORTED", if scn["sorted"].as_bool().unwrap_or(false) { "true" } else { "false" })
         ),
     };
-    let opts = json!({
+    let mut opts = json!({
         "parallelism": scn["par"],
         "persistence": if scn["keep"].as_bool().unwrap_or(true) { "persist_response_in_memory" } else { "discard_response_from_memory" },
         "response_output_policy_toml": policy_toml,
         "input_plugins_toml": "{ type = \"grid_search\" }",
     });
+    if scn["energy"].as_bool().unwrap_or(false) {
+        // state shared between queries: the vehicle's prediction cache lives in the application's service
+        opts["traversal_toml"] = json!(ENERGY_TRAVERSAL_TOML);
+        opts["cost_toml"] = json!(ENERGY_COST_TOML);
+    }
     let files = write_app(&scn["net"], &opts, &format!("b{}", tag));
     let app: CompassApp = match build_app(&files) {
         Ok(a) => a,
@@ -236,7 +261,7 @@ fn run_app_scenario(out: &mut Out, scn: &Value, tag: usize) {
                         let mut it = item_of(&qmap, &v);
                         // a JSON record must parse back to the very response that was returned (when responses are kept)
                         let same = match &r {
-                            Ok(rs) if scn["keep"].as_bool().unwrap_or(true) => rs.iter().any(|x| *x == v),
+                            Ok(rs) if scn["keep"].as_bool().unwrap_or(true) => rs.iter().any(|x| same_json(x, &v)),
                             _ => true,
                         };
                         it["intact"] = json!(same);
